@@ -42,12 +42,13 @@ type C14Case struct {
 	B       bool                   `json:"b,omitempty"`
 	S       string                 `json:"s,omitempty"`
 	Mask    int32                  `json:"mask,omitempty"`
+	Strs    []string               `json:"strs,omitempty"` // mask_history: earlier calls into the printer / parser pair
 	Events  []int32                `json:"events,omitempty"`
 	MutIdx  int                    `json:"mut_idx,omitempty"`
 }
 
 func genC14(t *rapid.T) C14Case {
-	kind := rapid.SampledFrom([]string{"res_oci", "res_oci", "res_nri", "res_nri", "copy", "copy", "mount", "device", "hook", "env", "ns", "opt", "opt", "marker", "maskops", "conv_history", "conv_history"}).Draw(t, "kind")
+	kind := rapid.SampledFrom([]string{"res_oci", "res_oci", "res_nri", "res_nri", "copy", "copy", "mount", "device", "hook", "env", "ns", "opt", "opt", "marker", "maskops", "mask_history", "conv_history", "conv_history"}).Draw(t, "kind")
 	c := C14Case{Kind: kind}
 	switch kind {
 	case "res_oci":
@@ -119,6 +120,14 @@ func genC14(t *rapid.T) C14Case {
 	case "maskops":
 		c.Mask = rapid.Int32Range(0, int32(api.ValidEvents)).Draw(t, "mask")
 		c.Events = rapid.SliceOfN(rapid.Int32Range(1, int32(api.Event_LAST)), 0, 5).Draw(t, "events")
+	case "mask_history":
+		// other uses of the printer / parser pair (failing parses, odd spellings, masks with
+		// invalid bits) come first; then a valid mask is printed and parsed back
+		c.Mask = rapid.Int32Range(1, int32(api.ValidEvents)).Draw(t, "mask")
+		n := 1 + gen.Uniform(t, "nsteps", 4)
+		for i := 0; i < n; i++ {
+			c.Strs = append(c.Strs, gen.Pick(t, "step", maskInterference))
+		}
 	}
 	return c
 }
@@ -757,6 +766,17 @@ func runC14conv(c C14Case) ev.Outcome {
 			}
 		}
 		o.NonTrivial = k == "" || wantMarked
+	case "mask_history":
+		for _, s := range c.Strs {
+			maskInterfere(s)
+		}
+		mask := api.EventMask(c.Mask)
+		s := mask.PrettyString()
+		back, err := api.ParseEventMask(s)
+		if err != nil || back != mask {
+			return ev.Failf("after %q: ParseEventMask(PrettyString(%#x)=%q) = %#x, %v", c.Strs, c.Mask, s, int32(back), err)
+		}
+		o.NonTrivial = true
 	case "maskops":
 		m := api.EventMask(c.Mask)
 		ref := uint32(c.Mask)
@@ -1070,40 +1090,78 @@ func TestProp_C14(t *testing.T) {
 	ev.Run(t, "C14", genC14, runC14)
 }
 
+// maskInterference: other calls into the mask printer / parser pair that a process may have
+// made before a mask is printed and parsed back. "!" + text = ParseEventMask(text) (most of
+// them fail), "!!" + text = MustParseEventMask(text) with the panic recovered, "#" + number =
+// PrettyString of that (partly invalid) mask.
+var maskInterference = []string{
+	"!nosuchevent", "!RunPodSandbox,bogus", "!", "! ", "!,", "!ALL", "!all,bogus", "!pod", "!container,podsandbox",
+	"!CREATECONTAINER", "! createcontainer , stopcontainer ", "!unknown(0x2000)", "!RunPodSandbox;StopPodSandbox",
+	"!!bogus", "!!pod", "#-1", "#8192", "#1073741824", "#8191", "#0", "#-2147483648",
+}
+
+func maskInterfere(s string) {
+	switch {
+	case strings.HasPrefix(s, "!!"):
+		func() {
+			defer func() { _ = recover() }()
+			api.MustParseEventMask(s[2:])
+		}()
+	case strings.HasPrefix(s, "!"):
+		_, _ = api.ParseEventMask(s[1:])
+	case strings.HasPrefix(s, "#"):
+		n, _ := strconv.ParseInt(s[1:], 10, 64)
+		m := api.EventMask(int32(n))
+		_ = m.PrettyString()
+	}
+}
+
 // TestExh_C14 enumerates all 8191 valid event masks (and the empty one):
-// ParseEventMask(PrettyString(m)) == m.
+// ParseEventMask(PrettyString(m)) == m - in a process that has used the pair for nothing
+// else yet, and again after every call of maskInterference has been made.
 func TestExh_C14(t *testing.T) {
 	r := ev.Get("C14")
 	r.NoJournal()
 	defer r.Flush()
 	n := 0
-	for m := int32(0); m <= int32(api.ValidEvents); m++ {
-		mask := api.EventMask(m)
-		s := mask.PrettyString()
-		var back api.EventMask
-		var err error
-		if s == "" {
-			back, err = api.ParseEventMask()
-		} else {
-			back, err = api.ParseEventMask(s)
-		}
-		c := C14Case{Kind: "mask_roundtrip", Mask: m, S: s}
-		o := ev.Outcome{Classes: []string{"kind:mask_roundtrip"}, NonTrivial: m != 0}
-		if err != nil || back != mask {
-			o = ev.Failf("ParseEventMask(PrettyString(%#x)=%q) = %#x, %v", m, s, int32(back), err)
-		}
-		// the comma-split and the multi-argument forms must agree
-		if o.Fail == "" && s != "" {
-			b2, err2 := api.ParseEventMask(strings.Split(s, ",")...)
-			if err2 != nil || b2 != mask {
-				o = ev.Failf("ParseEventMask(split %q) = %#x, %v", s, int32(b2), err2)
+	for pass := 0; pass < 2; pass++ {
+		if pass == 1 {
+			for _, s := range maskInterference {
+				maskInterfere(s)
 			}
 		}
-		r.Record(c, o)
-		if o.Fail != "" {
-			t.Fatalf("C14: %s", o.Fail)
+		for m := int32(0); m <= int32(api.ValidEvents); m++ {
+			mask := api.EventMask(m)
+			s := mask.PrettyString()
+			var back api.EventMask
+			var err error
+			if s == "" {
+				back, err = api.ParseEventMask()
+			} else {
+				back, err = api.ParseEventMask(s)
+			}
+			c := C14Case{Kind: "mask_roundtrip", Mask: m, S: s}
+			o := ev.Outcome{Classes: []string{"kind:mask_roundtrip"}, NonTrivial: m != 0}
+			if pass == 1 {
+				c.Kind, c.Strs = "mask_roundtrip_after_other_calls", maskInterference
+				o.Classes = []string{"kind:mask_roundtrip_after_other_calls"}
+			}
+			if err != nil || back != mask {
+				o = ev.Failf("ParseEventMask(PrettyString(%#x)=%q) = %#x, %v", m, s, int32(back), err)
+			}
+			// the comma-split and the multi-argument forms must agree
+			if o.Fail == "" && s != "" {
+				b2, err2 := api.ParseEventMask(strings.Split(s, ",")...)
+				if err2 != nil || b2 != mask {
+					o = ev.Failf("ParseEventMask(split %q) = %#x, %v", s, int32(b2), err2)
+				}
+			}
+			r.Record(c, o)
+			if o.Fail != "" {
+				t.Fatalf("C14: %s", o.Fail)
+			}
+			n++
 		}
-		n++
 	}
 	r.SetExtra("exhaustive_masks", n)
 	r.SetExtra("exhaustive", false) // only the mask sub-domain is exhaustive
